@@ -16,6 +16,7 @@ mod h_c10;
 mod h_c12;
 mod h_c17;
 mod h_dom;
+mod h_fault;
 mod h_ffi;
 mod h_proc;
 mod h_ps;
@@ -38,6 +39,7 @@ fn harnesses() -> Vec<Box<dyn Harness>> {
         Box::new(h_ps::PubSubHarness { ipc: false, prop: "C02" }),
         Box::new(h_ps::PubSubHarness { ipc: true, prop: "C02" }),
         Box::new(h_thr::PubSubThreads { prop: "C01", ipc: false }),
+        Box::new(h_fault::FaultHarness { prop: "C01", ipc: true }),
         Box::new(h_thr::PubSubThreads { prop: "C02", ipc: false }),
         Box::new(h_zc::ConnDataHarness { prop: "C02" }),
         Box::new(h_c03::QueueHarness { kind: "iq" }),
@@ -56,6 +58,7 @@ fn harnesses() -> Vec<Box<dyn Harness>> {
         // the connection's queues are dimensioned from the limits (buffer, borrow): inside the limits a release
         // must never fail and nothing may be lost, whatever the interleaving of sender and receiver
         Box::new(h_zc::ConnDataHarness { prop: "C08" }),
+        Box::new(h_fault::FaultHarness { prop: "C08", ipc: true }),
         Box::new(h_c09::PoolHarness { kind: "uis" }),
         Box::new(h_c09::PoolHarness { kind: "robust" }),
         Box::new(h_c09::PoolHarness { kind: "alloc" }),
@@ -63,6 +66,7 @@ fn harnesses() -> Vec<Box<dyn Harness>> {
         Box::new(h_rr::ReqRespHarness { ipc: false, prop: "C11" }),
         Box::new(h_rr::ReqRespHarness { ipc: true, prop: "C11" }),
         Box::new(h_thr::ReqRespThreads { ipc: false }),
+        Box::new(h_fault::FaultHarness { prop: "C11", ipc: true }),
         Box::new(h_c12::AtomicHarness { typed: false }),
         Box::new(h_c12::AtomicHarness { typed: true }),
         Box::new(h_zc::ConnLifecycleHarness),
